@@ -406,9 +406,115 @@ func genStreamCalls(repo string) (string, error) {
 	if len(copied) != 3 {
 		return "", fmt.Errorf("T-break: %s: proxyStream.Send does not copy Round, Signature and PreviousSignature of the beacon packet", bsPublicFile)
 	}
+	exitsOK, nExits, err := bsSyncChainExits(repo)
+	if err != nil {
+		return "", err
+	}
 	pos := pf.fset.Position(fd.Pos())
 	var sbd strings.Builder
 	sbd.WriteString("(* GENERATED by zzv extract from the Go sources; do not edit. *)\nFrom Coq Require Import Bool.\n")
+	fmt.Fprintf(&sbd, "(* %s SyncChain: of the %d return statements that follow store.AddCallback (outside the callback itself), every one is\n   either directly preceded by store.RemoveCallback(id) or returns the error received from errChan (the callback\n   removed itself or was replaced) *)\nDefinition sync_chain_exits_unregister : bool := %v.\n", bsSyncFile, nExits, exitsOK)
 	fmt.Fprintf(&sbd, "(* %s:%d PublicRandStream: store := bp.beacon.Store(); return beacon.SyncChain(log, store, proxyReq, proxyStr) *)\nDefinition public_rand_stream_calls_sync_chain : bool := true.\n", bsPublicFile, pos.Line)
 	return sbd.String(), nil
+}
+
+const bsSyncFile = "internal/chain/beacon/sync_manager.go"
+
+// bsSyncChainExits checks the exits of SyncChain after the registration of its callback.
+func bsSyncChainExits(repo string) (ok bool, n int, err error) {
+	pf, err := parseFile(repo, bsSyncFile)
+	if err != nil {
+		return false, 0, err
+	}
+	fd := bsFindFunc(pf, "SyncChain")
+	if fd == nil || fd.Body == nil {
+		return false, 0, fmt.Errorf("T-break: %s: func SyncChain not found", bsSyncFile)
+	}
+	// position of the (only) store.AddCallback call in SyncChain's own body
+	var addPos token.Pos
+	nAdd := 0
+	ast.Inspect(fd.Body, func(nd ast.Node) bool {
+		if _, isLit := nd.(*ast.FuncLit); isLit {
+			// the callback passed to AddCallback is inspected as an argument below, other literals are skipped
+			return true
+		}
+		if c, ok := nd.(*ast.CallExpr); ok && bsIsSel(c.Fun, "store", "AddCallback") {
+			nAdd++
+			addPos = c.Pos()
+		}
+		return true
+	})
+	if nAdd != 1 {
+		return false, 0, fmt.Errorf("T-break: %s: SyncChain: expected exactly one store.AddCallback call (found %d)", bsSyncFile, nAdd)
+	}
+	isRemove := func(st ast.Stmt) bool {
+		es, ok := st.(*ast.ExprStmt)
+		if !ok {
+			return false
+		}
+		c, ok := es.X.(*ast.CallExpr)
+		return ok && bsIsSel(c.Fun, "store", "RemoveCallback") && len(c.Args) == 1 && bsIsIdent(c.Args[0], "id")
+	}
+	ok = true
+	var visit func(list []ast.Stmt, fromErrChan bool)
+	visitStmt := func(st ast.Stmt, fromErrChan bool) {}
+	visit = func(list []ast.Stmt, fromErrChan bool) {
+		for i, st := range list {
+			if r, isRet := st.(*ast.ReturnStmt); isRet && r.Pos() > addPos {
+				n++
+				prevRemoves := i > 0 && isRemove(list[i-1])
+				// also accepted: RemoveCallback two statements before with only a logging call in between
+				if !prevRemoves && i > 1 && isRemove(list[i-2]) {
+					if es, isExpr := list[i-1].(*ast.ExprStmt); isExpr {
+						if _, isCall := es.X.(*ast.CallExpr); isCall {
+							prevRemoves = true
+						}
+					}
+				}
+				if !prevRemoves && !fromErrChan {
+					ok = false
+				}
+			}
+			visitStmt(st, fromErrChan)
+		}
+	}
+	visitStmt = func(st ast.Stmt, fromErrChan bool) {
+		switch x := st.(type) {
+		case *ast.BlockStmt:
+			visit(x.List, fromErrChan)
+		case *ast.IfStmt:
+			visit(x.Body.List, fromErrChan)
+			if x.Else != nil {
+				visitStmt(x.Else, fromErrChan)
+			}
+		case *ast.ForStmt:
+			visit(x.Body.List, fromErrChan)
+		case *ast.RangeStmt:
+			visit(x.Body.List, fromErrChan)
+		case *ast.SwitchStmt:
+			visit(x.Body.List, fromErrChan)
+		case *ast.SelectStmt:
+			visit(x.Body.List, fromErrChan)
+		case *ast.CaseClause:
+			visit(x.Body, fromErrChan)
+		case *ast.CommClause:
+			// case err := <-errChan: the error comes from the callback, which removed itself or was replaced
+			recv := false
+			if as, isAs := x.Comm.(*ast.AssignStmt); isAs && len(as.Rhs) == 1 {
+				if u, isU := as.Rhs[0].(*ast.UnaryExpr); isU && u.Op == token.ARROW && bsIsIdent(u.X, "errChan") {
+					recv = true
+				}
+			}
+			visit(x.Body, fromErrChan || recv)
+		case *ast.LabeledStmt:
+			visitStmt(x.Stmt, fromErrChan)
+		}
+		// statements containing function literals (the callback, the cursor function) are not entered:
+		// their returns do not leave SyncChain
+	}
+	visit(fd.Body.List, false)
+	if n == 0 {
+		return false, 0, fmt.Errorf("T-break: %s: SyncChain: no return statement after store.AddCallback", bsSyncFile)
+	}
+	return ok, n, nil
 }
